@@ -454,13 +454,33 @@ async fn do_run(dispatch: Dispatch, migs: &[Value], prefix: &str, work: &Path, r
     for pid in given {
         grant(pid, &mut effective).await;
     }
-    loop {
-        let pending: Vec<usize> = { let s = sched.borrow(); (0..n).filter(|p| !s.slots[*p].finished).collect() };
-        if pending.is_empty() {
-            break;
+    let is_finished = |pid: usize| sched.borrow().slots[pid].finished;
+    let sequential = run["mode"].as_str() == Some("sequential");
+    let late: Vec<usize> = run["late"].as_array().map(|a| a.iter().map(|x| x.as_u64().unwrap() as usize).collect()).unwrap_or_default();
+    let mut mids: Vec<Value> = Vec::new();
+    if sequential {
+        // one instance after the other, in pid order; the database is observed after each
+        for pid in 0..n {
+            while !is_finished(pid) {
+                grant(pid, &mut effective).await;
+            }
+            mids.push(observe(&path, &vt).await?);
         }
-        for pid in pending {
-            grant(pid, &mut effective).await;
+    } else {
+        loop {
+            let pending: Vec<usize> = (0..n).filter(|p| !is_finished(*p) && !late.contains(p)).collect();
+            if pending.is_empty() {
+                break;
+            }
+            for pid in pending {
+                grant(pid, &mut effective).await;
+            }
+        }
+        // late instances (retries) start only when everybody else has finished
+        for pid in late.iter().copied().filter(|p| *p < n) {
+            while !is_finished(pid) {
+                grant(pid, &mut effective).await;
+            }
         }
     }
     for h in handles {
@@ -476,7 +496,7 @@ async fn do_run(dispatch: Dispatch, migs: &[Value], prefix: &str, work: &Path, r
     }
     Ok(json!({"name": name, "variant": variant, "backend": run["backend"].as_str().unwrap_or("sqlite"), "dry": dry,
               "vt": vt, "init": init_echo, "before": before, "after": after, "instances": insts,
-              "schedule": effective, "tags": run["tags"].clone()}))
+              "schedule": effective, "sequential": sequential, "mids": mids, "tags": run["tags"].clone()}))
 }
 
 async fn refcats(migs: &[Value], work: &Path) -> Result<Vec<Value>, String> {
